@@ -19,6 +19,8 @@ public:
     for (size_t i = 0; i < bytes; i++) if (text[i] == 0) elements++;
     delete it;       // the real builder consumes its iterator
   }
+  // block over an owned copy of its text (used by the sequential harness)
+  StringDictionaryHASHRPDAC(uchar *t, size_t b, size_t n) : text(t), bytes(b), owned(true) { type = HASHRPDAC; elements = n; maxlength = 0; }
   ~StringDictionaryHASHRPDAC() { if (owned) delete[] text; }
   unsigned long locate(uchar *str, uint strLen) {
     size_t pos = 0;
